@@ -248,6 +248,7 @@ def build_harness(san="asan", extra_defs=(), wrap=()):
     flags = ["-std=gnu11", "-g", "-O1", "-w", "-fno-omit-frame-pointer", "-D" + GUARD] + list(extra_defs)
     if "pthread_mutex_lock" in wrap: flags.append("-DDRV_WRAP_LOCKS")
     if "pthread_rwlock_rdlock" in wrap: flags.append("-DDRV_WRAP_RW")
+    if "pthread_mutex_unlock" in wrap: flags.append("-DDRV_WRAP_OWNER")
     if san == "asan":
         flags += ["-fsanitize=address,undefined", "-fno-sanitize-recover=undefined"]
     elif san == "tsan":
